@@ -180,7 +180,7 @@ func TestProxyExhaustive(t *testing.T) {
 	if ev.Thorough() {
 		maxLen = 5
 	}
-	alpha := []POp{{"wh", 200}, {"wh", 404}, {"wh", 500}, {"wh", 204}, {"w", 3}, {"w", 0}, {"rf", 5}, {"flush", 0}}
+	alpha := []POp{{"wh", 200}, {"wh", 404}, {"wh", 500}, {"wh", 101}, {"w", 3}, {"w", 0}, {"rf", 5}, {"flush", 0}}
 	var n, nt int64
 	for _, caps := range []string{"basic", "flusher", "full"} {
 		for _, acc := range []int{-1, 0, 4, 7} {
@@ -223,7 +223,7 @@ func TestProxyExhaustive(t *testing.T) {
 		}
 	}
 	rec.Bulk(n, nt, "proxy-exhaustive")
-	rec.Exhaustive(fmt.Sprintf("all call sequences up to length %d over {WriteHeader(200|404|500|204), Write(3), Write(0), ReadFrom(5), Flush-after-header} x 3 capability sets x 4 acceptance scripts", maxLen))
+	rec.Exhaustive(fmt.Sprintf("all call sequences up to length %d over {WriteHeader(200|404|500|101), Write(3), Write(0), ReadFrom(5), Flush-after-header} x 3 capability sets x 4 acceptance scripts", maxLen))
 	rec.Sample(PCase{Caps: "full", Accept: 4, Ops: []POp{{"w", 3}, {"wh", 404}, {"rf", 5}}})
 }
 
@@ -240,7 +240,7 @@ func TestProxyRapid(t *testing.T) {
 			op := POp{K: k}
 			switch k {
 			case "wh":
-				op.N = rapid.SampledFrom([]int{200, 201, 204, 301, 304, 400, 404, 500, 503}).Draw(rt, "code")
+				op.N = rapid.SampledFrom([]int{200, 201, 204, 301, 304, 400, 404, 500, 503, 101, 103}).Draw(rt, "code")
 			case "w", "rf":
 				op.N = rapid.SampledFrom([]int{0, 1, 2, 100, 4096, 70000}).Draw(rt, "bytes")
 			}
